@@ -202,6 +202,18 @@ type world struct {
 	settleHook func(n int) bool
 	settleN    int
 	nonce     int64
+	tr        *traceStore // non-nil when the store calls of the services are recorded
+}
+
+// traced runs f and returns the store calls the services made meanwhile (nil when not recording).
+func (w *world) traced(f func()) []string {
+	if w.tr == nil {
+		f()
+		return nil
+	}
+	w.tr.take()
+	f()
+	return w.tr.take()
 }
 
 type settleCall struct {
@@ -235,12 +247,18 @@ type worldCfg struct {
 	Settle     bool
 	MaxHosts   int
 	wrap       func(store.Store) store.Store // optional interposer between the services and the driver
+	trace      bool                          // record every store call the services make (C10 call traces)
 }
 
 func newWorld(cfg worldCfg) *world {
 	w := &world{drv: cfg.Drv, st: newStore(cfg.Drv), t: newInterner(), conns: map[string][]*hostConn{}, settleOK: true,
 		stallFor: 6 * time.Second}
-	w.bstore = &depositStore{AccountStore: w.st.Store, dep: map[store.Account]*big.Int{}}
+	var base store.Store = w.st.Store
+	if cfg.trace {
+		w.tr = &traceStore{Store: w.st.Store, w: w}
+		base = w.tr
+	}
+	w.bstore = &depositStore{AccountStore: base, dep: map[store.Account]*big.Int{}}
 	w.price, _ = new(big.Int).SetString(cfg.Price, 10)
 	w.interval = time.Duration(cfg.IntervalNs)
 	m := balance.PayPerInterval(w.bstore, w.interval, w.price)
@@ -262,12 +280,12 @@ func newWorld(cfg worldCfg) *world {
 	})
 	w.mgr = m
 	if cfg.wrap != nil {
-		w.pool = pool.New(cfg.wrap(w.st.Store), m)
+		w.pool = pool.New(cfg.wrap(base), m)
 	} else {
-		w.pool = pool.New(w.st.Store, m)
+		w.pool = pool.New(base, m)
 	}
 	w.pool.MaxRequestHosts = cfg.MaxHosts
-	w.pay = &payment.PaymentService{NonceStore: w.st.Store, AccountStore: w.st.Store, BalanceStore: w.bstore}
+	w.pay = &payment.PaymentService{NonceStore: base, AccountStore: base, BalanceStore: w.bstore}
 	if cfg.WMin != nil {
 		w.pay.WithdrawMin, _ = new(big.Int).SetString(*cfg.WMin, 10)
 	}
